@@ -713,13 +713,23 @@ func genC19(t *rapid.T) c19Case {
 	for i := 0; i < np; i++ {
 		c.Params = append(c.Params, rapid.SampledFrom(pool).Draw(t, "param"))
 	}
+	// the option combinations that decide where the stubs are placed, drawn deliberately
+	if rapid.IntRange(0, 3).Draw(t, "mapself") == 0 {
+		c.Params = append(c.Params, "M"+c.FileName+"="+rapid.SampledFrom([]string{"example.com/m/own", "example.com/mod/own/v2;ownpb", "example.com/foo/bar"}).Draw(t, "mapselfto"))
+	}
+	if rapid.IntRange(0, 3).Draw(t, "importpath") == 0 {
+		c.Params = append(c.Params, "import_path="+rapid.SampledFrom([]string{"example.com/override", "example.com/mod/ovr;ovrpb", "plain"}).Draw(t, "importpathto"))
+	}
+	if len(c.Params) > 1 && rapid.Bool().Draw(t, "shuffle") {
+		c.Params = rapid.Permutation(c.Params).Draw(t, "paramorder")
+	}
 	return c
 }
 
 func init() { registerReplay("C19", propC19) }
 
 const c19Rule = "rapid-generated FileDescriptorProtos (package empty/nested, four go_package forms, 0..3 services, 0..8 methods of the four kinds in any interleaving, snake_case/CamelCase/digit/underscore names, local/imported/well-known request and response types with dependency files) x parameter lists (legacy_stubs, legacy_desc_names, debug, paths, module, import_path, M mappings, every accepted boolean spelling, and the documented invalid forms) fed as CodeGeneratorRequest to the plugin binary built from the working tree; " +
-	"oracle: error iff the parameters are invalid by the documented grammar; one *.pb.grpchan.go iff the file has services; output parses (go/parser) and is a go/format fixed point; AST model: RegisterHandler<Svc> calls reg.RegisterService(&<desc var per legacy_desc_names>, srv); with legacy_stubs every method has exactly one stub calling Invoke / NewStream with path /<full service>/<method>, &<desc>.Streams[rank among the service's streaming methods], SendMsg+CloseSend iff server-streaming only; without legacy_stubs no client types; " +
+	"oracle: error iff the parameters are invalid by the documented grammar; one *.pb.grpchan.go iff the file has services; output parses (go/parser) and is a go/format fixed point; AST model: RegisterHandler<Svc> calls reg.RegisterService(&<desc var per legacy_desc_names>, srv); with legacy_stubs every method has exactly one stub calling Invoke / NewStream with path /<full service>/<method>, &<desc>.Streams[rank among the service's streaming methods], SendMsg+CloseSend iff server-streaming only; without legacy_stubs no client types; placement model: package clause and output path are those of the Go package holding the file's own service descriptions (M mapping for the file > import_path > go_package; module prefix trimmed; paths=source_relative), imported message packages are imported under their M mapping, the file never imports itself; " +
 	"plus byte-exact regeneration of grpchantesting/test.pb.grpchan.go from the compiled-in descriptors; non-trivial = streaming methods interleaved with unary ones, >=2 services, invalid parameters, or regeneration; distinct by case hash"
 
 func TestC19(t *testing.T) {
